@@ -112,6 +112,9 @@ class SqliteStorage(AbstractStorage):
             from aw_datastore import check_for_migration  # fmt: skip
 
             check_for_migration(self)
+            # The migration only runs when the db file is new, so what it wrote
+            # must not be left to the lazy commit (it would never be redone)
+            self.commit()
 
         self.last_commit = datetime.now()
         self.num_uncommitted_statements = 0
